@@ -3,6 +3,7 @@ package main
 import (
 	"go/token"
 	"go/types"
+	"strings"
 
 	"golang.org/x/tools/go/ssa"
 )
@@ -179,21 +180,35 @@ func (p *Prog) revisionBytesRec(v ssa.Value, depth int) (revBytes, bool) {
 			}
 			return base, true
 		}
-		if sc := x.Common().StaticCallee(); sc != nil && sc.Blocks != nil && len(sc.Params) == 1 && sc.Signature.Results().Len() == 1 {
-			// helper: every return is revision bytes of the parameter
+		if sc := x.Common().StaticCallee(); sc != nil && sc.Blocks != nil && len(sc.Params) >= 1 && sc.Signature.Results().Len() == 1 {
+			// helper: every return is revision bytes of one and the same parameter (the flag byte may depend on
+			// another parameter, e.g. encode(rev, deleted))
 			okAll := len(sc.Blocks) > 0
-			n := 0
+			n, flag, pidx, nret := 0, false, -1, 0
 			for _, b := range sc.Blocks {
 				if ret, ok := b.Instrs[len(b.Instrs)-1].(*ssa.Return); ok {
 					rb, ok := p.revisionBytesRec(ret.Results[0], depth+1)
-					if !ok || resolve(rb.Rev) != ssa.Value(sc.Params[0]) || rb.Flag {
+					if !ok {
 						okAll = false
+						continue
 					}
-					n = rb.Len
+					prm, isPrm := resolve(rb.Rev).(*ssa.Parameter)
+					if !isPrm || prm.Parent() != sc || (pidx >= 0 && paramIndex(prm) != pidx) {
+						okAll = false
+						continue
+					}
+					pidx = paramIndex(prm)
+					if nret > 0 && (rb.Len != n || rb.Flag != flag) {
+						n = 0
+						flag = flag || rb.Flag
+					} else {
+						n, flag = rb.Len, rb.Flag
+					}
+					nret++
 				}
 			}
-			if okAll {
-				return revBytes{Rev: x.Common().Args[0], Len: n}, true
+			if okAll && pidx >= 0 && pidx < len(x.Common().Args) {
+				return revBytes{Rev: x.Common().Args[pidx], Len: n, Flag: flag}, true
 			}
 		}
 	case *ssa.Phi:
@@ -272,4 +287,55 @@ func (p *Prog) paramActuals(prm *ssa.Parameter) []ssa.Value {
 		}
 	}
 	return out
+}
+
+// builtFieldValue: v is a freshly built struct (pointer): a literal of the current function, or the result of a local
+// builder function all of whose returns are literals. It returns the value stored into `field`, expressed in the frame
+// of v (builder parameters are replaced by the arguments of the call). ok=false when the field is not set or v is not
+// such a value.
+func (p *Prog) builtFieldValue(v ssa.Value, field *types.Var) (ssa.Value, bool) {
+	v = p.resolveDeep(v)
+	switch x := v.(type) {
+	case *ssa.Alloc:
+		var out ssa.Value
+		n := 0
+		for _, st := range p.fields().stores[field] {
+			if fa := st.Addr.(*ssa.FieldAddr); fa.X == ssa.Value(x) {
+				out = st.Val
+				n++
+			}
+		}
+		return out, n == 1
+	case *ssa.Call:
+		sc := x.Common().StaticCallee()
+		if sc == nil || sc.Blocks == nil || sc.Signature.Results().Len() != 1 || sc.Pkg == nil || !strings.HasPrefix(sc.Pkg.Pkg.Path(), modPath) {
+			return nil, false
+		}
+		var out ssa.Value
+		for _, b := range sc.Blocks {
+			ret, ok := b.Instrs[len(b.Instrs)-1].(*ssa.Return)
+			if !ok || b.Comment == "recover" {
+				continue
+			}
+			al, ok := p.resolveDeep(ret.Results[0]).(*ssa.Alloc)
+			if !ok {
+				return nil, false
+			}
+			fv, ok := p.builtFieldValue(al, field)
+			if !ok {
+				return nil, false
+			}
+			prm, ok := p.resolveDeep(fv).(*ssa.Parameter)
+			if !ok || prm.Parent() != sc || paramIndex(prm) >= len(x.Common().Args) {
+				return nil, false
+			}
+			a := x.Common().Args[paramIndex(prm)]
+			if out != nil && out != a {
+				return nil, false
+			}
+			out = a
+		}
+		return out, out != nil
+	}
+	return nil, false
 }
